@@ -1173,3 +1173,46 @@ def name_store(cls_short=None):
             if f'"{nm}"' not in sql:
                 return f"{label} named {nm!r} renders {sql!r}: the name is not one quoted identifier"
     return None
+
+
+def commute(cls_short, m, slot, writers):
+    """C13: q.m(a).w(b) and q.w(b).m(a) render differently (or one raises) for a method w of another clause"""
+    from . import Table, arg_candidates, pk, fn
+    import pypika_tortoise.dialects as D
+    qmap = {"QueryBuilder": pk.Query, "MySQLQueryBuilder": D.MySQLQuery, "PostgreSQLQueryBuilder": D.PostgreSQLQuery,
+            "SQLLiteQueryBuilder": D.SQLLiteQuery, "MSSQLQueryBuilder": D.MSSQLQuery, "OracleQueryBuilder": D.OracleQuery}
+    qc = qmap.get(cls_short.split(".")[-1])
+    if qc is None or not m:
+        return None
+    t, u, w_ = Table("t"), Table("u"), Table("w")
+    outer = Table("outer_t")
+    bases = [("empty", qc._builder()), ("from", qc.from_(t)), ("select", qc.from_(t).select(t.a)),
+             ("into", qc.into(t)), ("insert", qc.into(t).insert(1)), ("update", qc.update(t)),
+             ("select-alias", qc.from_(t).select(t.id, fn.Sum(t.x).as_("total"))),
+             ("select-constant", qc._builder().select(1)),
+             ("from-join", qc.from_(t).join(u).on(t.id == u.id).select(t.id))]
+    cands, _kw = arg_candidates()
+    cands = [(), ("total",), (fn.Sum(u.x).as_("total"),), ("n1",), (t.foo,), (t.foo == 1,), (outer.k == t.k,), (t,), (u,), (1,),
+             (pk.Query.from_(w_).select(w_.x),), (t.foo, 1), ("n1", 1)] + cands
+
+    def outcome(thunk):
+        try:
+            q = thunk()
+            if hasattr(q, "cross") and not hasattr(q, "get_sql"):
+                q = q.cross()        # a pending join: complete it the same way in both orders
+            return ("ok", str(q))
+        except Exception as e:
+            return ("raise", type(e).__name__)
+    small = cands[:13]
+    for wname in writers:
+        for blabel, base in bases:
+            if not hasattr(base, wname) or not hasattr(base, m):
+                continue
+            for a1 in small:
+                for a2 in small:
+                    o1 = outcome(lambda: getattr(getattr(base, m)(*a1), wname)(*a2))
+                    o2 = outcome(lambda: getattr(getattr(base, wname)(*a2), m)(*a1))
+                    if o1 != o2 and not (o1[0] == o2[0] == "raise"):
+                        return (f"on the {blabel} builder, .{m}{a1!r}.{wname}{a2!r} gives {o1[1]!r} but "
+                                f".{wname}{a2!r}.{m}{a1!r} gives {o2[1]!r}")
+    return None
